@@ -90,6 +90,7 @@ impl Property for C08 {
             s2c: vec![Chan { id: 0, kind: Kind::Ordered, max_mem: 100_000, resend_ms: 100 }, Chan { id: 1, kind: Kind::Unordered, max_mem: 100_000, resend_ms: 100 }],
             c2s: vec![Chan { id: 0, kind: Kind::Ordered, max_mem: 100_000, resend_ms: 100 }],
             n_clients: 1,
+            id_scheme: 0,
         };
         let mut w = World::new(cfg, Oracles { release: true, content: true, ..Default::default() });
         let d = Dir { client: 0, to_client: true };
